@@ -77,14 +77,15 @@ func (in *inst) unknownResults(st *State, sig *types.Signature, prefix string) [
 func (fv *FnVC) havocAll(st *State, why string) {
 	fv.note("havoc of all memory: " + why)
 	fv.epoch++
-	if fv.private != "" || len(fv.localRoots) > 0 {
+	vlr := fv.visibleLocalRoots()
+	if fv.private != "" || len(vlr) > 0 {
 		// memory owned by the private root, and local cells that never escape,
 		// are unreachable for the callee
 		var keep []string
 		if fv.private != "" {
 			keep = append(keep, "(root "+fv.private+")")
 		}
-		for _, r := range fv.localRoots {
+		for _, r := range vlr {
 			keep = append(keep, "(root "+r+")")
 		}
 		region := func(l string) string {
@@ -113,7 +114,7 @@ func (fv *FnVC) havocAll(st *State, why string) {
 		if fv.privEpochs == nil {
 			fv.privEpochs = map[int]*privEpoch{}
 		}
-		pe := &privEpoch{prev: st.epoch, region: region, alloc: allocNow, tag: fv.curTag, localOnly: fv.private == "", roots: append([]string(nil), fv.localRoots...)}
+		pe := &privEpoch{prev: st.epoch, region: region, alloc: allocNow, tag: fv.curTag, localOnly: fv.private == "", roots: append([]string(nil), vlr...)}
 		fv.privEpochs[fv.epoch] = pe
 		for _, k := range keys {
 			if h := st.heaps[k]; len(h.havocs) == 1 {
@@ -391,7 +392,7 @@ func (in *inst) applyContract(n *vnode, st *State, ct *Contract, callee string, 
 		sort.Strings(keys)
 		for _, k := range keys {
 			st.heaps[k] = pre[k]
-			fv.havocHeap(st, k, regs[k].sort, regs[k].pred, nil)
+			fv.havocHeap(st, k, regs[k].sort, regs[k].pred, nil).calleeFrame = true
 		}
 	} else if len(ct.Assigns) > 0 {
 		regs := ce.regions(ct.Assigns)
@@ -402,7 +403,7 @@ func (in *inst) applyContract(n *vnode, st *State, ct *Contract, callee string, 
 		sort.Strings(keys)
 		for _, k := range keys {
 			r := regs[k]
-			fv.havocHeap(st, k, r.sort, r.pred, nil)
+			fv.havocHeap(st, k, r.sort, r.pred, nil).calleeFrame = true
 		}
 	}
 	a := fv.decl("alloc", "Int")
@@ -436,7 +437,37 @@ func (in *inst) applyContract(n *vnode, st *State, ct *Contract, callee string, 
 	if ce2.err != nil {
 		fv.specErr(ce2.err)
 	}
+	callok := "true"
+	if len(vs) > 0 && vs[len(vs)-1].K == KIface && canonType(sig.Results().At(sig.Results().Len()-1).Type()) == "error" {
+		callok = eq(vs[len(vs)-1].T, "niliface")
+	}
+	in.checkpoint(n, st, pos, callok)
 	return vs
+}
+
+// checkpoint re-proves the function's `maintain` clauses after a call and
+// assumes them afterwards, so that long call sequences are verified one step
+// at a time.
+func (in *inst) checkpoint(n *vnode, st *State, pos token.Pos, callok string) {
+	fv := in.fv
+	if !in.top || fv.ct == nil || len(fv.ct.Maintain) == 0 || st.reach == "false" {
+		return
+	}
+	in.at = n.blk
+	ce := in.baseEnv(st)
+	in.at = nil
+	ce.vars["callok"] = bval(callok)
+	for _, m := range fv.ct.Maintain {
+		t := ce.evalGoal(m.Expr)
+		fv.n++
+		id := fmt.Sprintf("%s#maintain:%s@%s", funcKey(fv.top), m.Name, in.posKey(pos, n))
+		fv.oblige(id, "maintain", in.propsFor(m), st.reach, t, m.Expr, pos)
+		// assume the clause in its universal form for the code that follows
+		fv.assume(st.reach, ce.evalAssume(st.reach, m.Expr))
+	}
+	if ce.err != nil {
+		fv.specErr(ce.err)
+	}
 }
 
 func (fv *FnVC) specErr(err error) {
@@ -559,6 +590,45 @@ func (c *cenv) regions(specs []string) map[string]*region {
 			in.forEachLeaf(t, func(path []int, lt types.Type) {
 				z := fv.zeroVal(lt)
 				orRegion(regs, leafKey(lt), z.sortOf(), func(l string) string { return "true" })
+			})
+			continue
+		}
+		if strings.HasPrefix(s, "fieldof(") && strings.HasSuffix(s, ")") {
+			// fieldof(T.f): field f of every object of struct type T
+			tf := strings.SplitN(s[len("fieldof("):len(s)-1], ".", 2)
+			var t types.Type
+			if len(tf) == 2 {
+				t = c.typeOf(tf[0])
+			}
+			st, ok := types.Unalias(tOrNil(t)).Underlying().(*types.Struct)
+			if t == nil || !ok {
+				c.fail("assigns %s: struct field expected", s)
+				continue
+			}
+			fi := -1
+			for i := 0; i < st.NumFields(); i++ {
+				if st.Field(i).Name() == tf[1] {
+					fi = i
+				}
+			}
+			if fi < 0 {
+				c.fail("assigns %s: no such field", s)
+				continue
+			}
+			tid := fmt.Sprint(fv.eng.tagOf(t))
+			in.forEachLeaf(st.Field(fi).Type(), func(path []int, lt types.Type) {
+				z := fv.zeroVal(lt)
+				p := append([]int(nil), path...)
+				orRegion(regs, leafKey(lt), z.sortOf(), func(l string) string {
+					cur := l
+					var cs []string
+					for k := len(p) - 1; k >= 0; k-- {
+						cs = append(cs, "(isLField "+cur+")", eq("(fidx "+cur+")", fmt.Sprint(p[k])))
+						cur = "(fpar " + cur + ")"
+					}
+					cs = append(cs, "(isLField "+cur+")", eq("(fidx "+cur+")", fmt.Sprint(fi)), eq("(ltype (fpar "+cur+"))", tid))
+					return and(cs...)
+				})
 			})
 			continue
 		}
@@ -947,7 +1017,7 @@ func (w *writeShape) pred(l string) string {
 	var ds []string
 	if w.calleeTotal {
 		var ks []string
-		for _, r := range w.fv.localRoots {
+		for _, r := range w.fv.visibleLocalRoots() {
 			ks = append(ks, not(eq("(root "+l+")", "(root "+r+")")))
 		}
 		ds = append(ds, and(ks...))
